@@ -76,7 +76,10 @@ def pmenu(dim, small=False):
     n = len(LABELS[dim][1])
     m = [["s", 0], ["s", -1], ["s", n], ["l", [n - 1, 0]], ["l", [0, 0]], ["m", [i % 2 == 1 for i in range(n)]], ["sl", 1, None, None],
          ["sl", None, None, 2], ["l", []], ["full"], ["l", list(range(1, n)) + [0]], ["l", [n - 1] + list(range(0, n - 1))]]
-    return [m[0], m[3], m[5], m[6], m[9], m[10]] if small else m
+    if n >= 2:
+        # negative positions inside lists: consecutive ones up to the last element, and a list crossing from the end to the start
+        m += [["l", [-2, -1]], ["l", [-1, 0]], ["l", list(range(-n, 0))]]
+    return [m[0], m[3], m[5], m[6], m[9], m[10]] + m[12:13] if small else m
 
 
 LSP = ["getitem", "loc", "sel", "read", "read_nc"]
